@@ -120,7 +120,7 @@ PROPS = {
         assumptions=[],
     ),
     "C18": dict(
-        lean_modules=["PalomaModel.Props.C18", "PalomaModel.Props.Consts.C18"], gen=["ConstTable.lean"],
+        lean_modules=["PalomaModel.Props.C18", "PalomaModel.Props.Consts.C18", "PalomaModel.Props.Translated.C18"], gen=["ConstTable.lean", "Translated.lean"],
         harness_test="TestC18",
         n_quick=150, n_thorough=1500, thorough_seeds=8, timeout_quick=900,
         spec_ops=["*"],  # every observable the driver prints for this property is the property's own subject (canonical state / verdicts)
